@@ -212,6 +212,23 @@ fn c08_hist(input: &Input, obs: &mut Obs) -> Result<(), Fail> {
                     if !staged.is_empty() {
                         let c = staged[s.below(staged.len())];
                         w.send_next(c);
+                    } else if !conn.is_empty() && s.chance(60) {
+                        // drip: a request arrives in many small pieces with a poll after each
+                        let c = conn[s.below(conn.len())];
+                        let spec = spec_from(&mut s, true, false);
+                        let step = s.range(1, 9);
+                        let cuts: Vec<usize> = (1..200).map(|k| k * step).collect();
+                        if spec.expect {
+                            had_expect = true;
+                        }
+                        w.send_request(c, &spec, &cuts);
+                        let mut guard = 0;
+                        while !w.clients[c].staged.is_empty() && guard < 400 {
+                            guard += 1;
+                            w.poll();
+                            w.send_next(c);
+                        }
+                        obs.label("request_dripped_in_small_pieces_with_polls");
                     }
                 }
                 3 => {
@@ -2284,8 +2301,18 @@ fn c11_server(input: &Input, obs: &mut Obs) -> Result<(), Fail> {
             // malformed chunk, sent alone, settled: the client reads the 400
             let n400_before = audit_client(&w, c)?.n400;
             w.clients[c].dirty = true;
-            let kind = s.below(4);
+            let kind = s.below(5);
             match kind {
+                4 => {
+                    // an over-long header line full of non-UTF-8 bytes
+                    let mut g = b"GET / HTTP/1.1\r\nX".to_vec();
+                    g.extend(std::iter::repeat(0xffu8).take(s.range(1030, 1200)));
+                    // terminated, so that what follows the over-long line is rejected as lines of
+                    // its own and nothing partial stays buffered
+                    g.extend_from_slice(b"\r\n\r\n");
+                    w.send_raw(c, &g);
+                    obs.label("over_long_binary_header_line");
+                }
                 0 => w.send_raw(c, GARBAGE[s.below(GARBAGE.len())]),
                 1 => {
                     // a tagged request that is rejected in its headers: it must never be yielded
@@ -2432,6 +2459,8 @@ fn c13_server(input: &Input, obs: &mut Obs) -> Result<(), Fail> {
                 let mut bytes = w.compose(c, &front);
                 let b2 = w.compose(c, &spec);
                 j = w.clients[c].composed.len() - 1;
+                // (the tag in the URI may have one digit more than in the probe)
+                let hdr = b2.len() - n;
                 bytes.extend_from_slice(&b2[..hdr]);
                 staged = if n > 0 { vec![b2[hdr..].to_vec()] } else { vec![] };
                 w.send_raw(c, &bytes);
@@ -2452,10 +2481,36 @@ fn c13_server(input: &Input, obs: &mut Obs) -> Result<(), Fail> {
             if n > 0 && w.clients[c].yielded.contains(&j) {
                 return Err(("yielded-without-body".into(), format!("r{} was yielded before its body was sent", j)));
             }
-            for p in staged {
-                w.send_raw(c, &p);
+            let mut extra100 = 0;
+            if !staged.is_empty() && lim >= 2 && s.chance(70) {
+                // the body of this request and the header block of a further Expect request in ONE send:
+                // the second interim response is due although the first request is still unanswered
+                let spec2 = ReqSpec { method: 1, version: s.below(2) as u8, body: 2, expect: true, extra_headers: 0, body_kind: 0 };
+                let b2 = w.compose(c, &spec2);
+                let j2 = w.clients[c].composed.len() - 1;
+                let hdr2 = b2.len() - 2;
+                let mut bytes: Vec<u8> = staged.concat();
+                bytes.extend_from_slice(&b2[..hdr2]);
+                w.send_raw(c, &bytes);
+                w.settle(300, true);
+                let a = audit_client(&w, c)?;
+                if a.n100 - before != want + 1 {
+                    return Err(("interim".into(), format!("body of r{} and header block of r{} (Expect, 2 bytes) in one send, r{} unanswered: {} interim responses so far, expected {}", j, j2, j, a.n100 - before, want + 1)));
+                }
+                w.send_raw(c, &b2[hdr2..]);
+                w.settle(300, true);
+                if !w.clients[c].yielded.contains(&j2) {
+                    return Err(("not-yielded".into(), format!("r{} was not yielded after its body arrived", j2)));
+                }
+                extra100 = 1;
+                obs.label("body_and_next_expect_headers_in_one_send");
+            } else {
+                for p in staged {
+                    w.send_raw(c, &p);
+                }
+                w.settle(300, true);
             }
-            w.settle(300, true);
+            let want = want + extra100;
             if !w.clients[c].yielded.contains(&j) {
                 return Err(("not-yielded".into(), format!("r{} was not yielded after its body arrived", j)));
             }
